@@ -106,6 +106,7 @@ def run(report, tier, seed):
         lean = vlib.LeanDriver("wiredrv")
         directed(report, sc, inproc)
         multi_instance(report, sc, inproc, lean)
+        enum_values(report, sc, inproc, lean)
         through_wrappers(report, sc, inproc, lean, quick)
         structural(report, sc, ybin, inproc, lean, seed, 150 if quick else 3000)
         rewrites(report, sc, ybin, inproc, seed, 4 if quick else 40)
@@ -253,6 +254,57 @@ def multi_instance(report, sc, inproc, lean):
                 elif m.get("verdict") != verdict:
                     report.violation(f"multi-instance:verdict-differs:{ename}:{arrangement}", dict(replay, theorem_or_correspondence="Evo.protoVerdict vs ValidateEvolution"),
                                      "a change reached only through one of several instantiations of a generic did not get the verdict of the same change reached directly")
+
+
+def enum_values(report, sc, inproc, lean):
+    """an enum reached from a protocol whose symbol values change: any change of a value is an error, whatever the sign, the magnitude and the base of
+    the values (negated, swapped between two symbols, at the ends of the base type's range); unchanged values are silent (directed, every tier)"""
+    cases = []
+    for base, lo, hi in ((None, -2 ** 31, 2 ** 31 - 1), ("int8", -128, 127), ("int16", -2 ** 15, 2 ** 15 - 1), ("int64", -2 ** 63, 2 ** 63 - 1), ("uint64", 0, 2 ** 64 - 1), ("uint8", 0, 255)):
+        signed = lo < 0
+        vals = [["a", 1], ["b", 2], ["c", hi]] + ([["m", -1], ["n", -7], ["z", lo]] if signed else [["z", 0]])
+        edits = [("identity", lambda v: None), ("first-to-other-magnitude", lambda v: v[0].__setitem__(1, 3)), ("top-down-by-one", lambda v, hi=hi: v[2].__setitem__(1, hi - 1))]
+        if signed:
+            edits += [("negate-positive", lambda v: v[1].__setitem__(1, -2)), ("negate-negative", lambda v: v[4].__setitem__(1, 7)),
+                      ("swap-minus-one-and-one", lambda v: (v[0].__setitem__(1, -1), v[3].__setitem__(1, 1))),
+                      ("bottom-up-by-one", lambda v, lo=lo: v[5].__setitem__(1, lo + 1)), ("negative-to-other-negative", lambda v: v[3].__setitem__(1, -3))]
+        else:
+            edits += [("zero-to-three", lambda v: v[3].__setitem__(1, 3))]
+        for ename, ed in edits:
+            cases.append((base, vals, ename, ed))
+    for base, vals, ename, ed in cases:
+        for reach in ("step", "field-in-stream", "through-alias"):
+            old = evogen.Version()
+            old.defs["Level"] = ["enum", base, False, [list(x) for x in vals], "Level"]
+            old.order.append("Level")
+            if reach == "step":
+                old.steps.append(["level", ["ref", "Level"], False])
+            elif reach == "field-in-stream":
+                old.defs["Reading"] = ["rec", [["t", ["prim", "uint64"]], ["level", ["ref", "Level"]]], "Reading"]
+                old.order.append("Reading")
+                old.steps.append(["readings", ["ref", "Reading"], True])
+            else:
+                old.defs["LevelAlias"] = ["alias", ["ref", "Level"], "LevelAlias"]
+                old.order.append("LevelAlias")
+                old.steps.append(["levels", ["vec", ["ref", "LevelAlias"], None], False])
+            new = old.copy()
+            ed(new.defs["Level"][3])
+            name = f"ev-{base or 'default'}-{ename}-{reach}"
+            root = sc.path(name)
+            od = write_version(root, "old", old)
+            nd = write_version(root, "new", new, versions=[("v0", "../old")])
+            verdict, res = real_verdict(inproc, nd)
+            report.case(distinct_key=("enum-values", base, ename, reach))
+            report.count("enum-values")
+            want = "ok" if ename == "identity" else "err"
+            m = lean.ask({"op": "evo_proto", "new": evogen.proto_json(new), "old": evogen.proto_json(old), "new_defs": evogen.defs_json(new)})
+            replay = {"directed": name, "files": files_of(od, nd), "model": m, "tool_verdict": verdict, "documented": want,
+                      "tool": {k2: res[k2] for k2 in res if k2 in ("evolutionError", "evolutionWarnings", "panic", "validateError", "parseError", "versionError")}}
+            if verdict in ("panic", "crash", "invalid"):
+                report.violation(f"enum-values:{verdict}:{ename}", replay, "comparing two individually valid versions failed")
+            elif m.get("verdict") != verdict or verdict != want:
+                report.violation(f"enum-values:verdict-differs:{ename}:{reach}", dict(replay, theorem_or_correspondence="Evo.protoVerdict vs ValidateEvolution"),
+                                 "a changed enum value did not get the documented verdict (changing enum definitions is incompatible)")
 
 
 def through_wrappers(report, sc, inproc, lean, quick):
